@@ -154,7 +154,7 @@ def run(chk, tier):
 
     # ---- time range: same update in the radial and status arms, none elsewhere; VCP set
     times(chk, ev, val[ls_], S, contents, mtime, drd, w)
-    data_types(chk, prog)
+    data_types(chk, prog, ls)
     # ---- end of input: the open group is pushed
     try:
         ret = loops.exit_value(prog, fn, lp, opaque=OPAQUE)
@@ -262,7 +262,106 @@ DATA_TYPES = {"reflectivity_data_block": "Reflectivity", "velocity_data_block": 
               "correlation_coefficient_data_block": "Correlation Coefficient", "specific_diff_phase_data_block": "Specific Differential Phase"}
 
 
-def data_types(chk, prog):
+MAP_TY = "&mut std::collections::hash::map::HashMap<alloc::string::String, usize>"
+
+
+def table_form(chk, prog, fn, ls):
+    """The counts driven by a table: one inner loop over a constant array of (name, block) pairs whose body is
+    `if block.is_some() { count(name) }`. Decided on values: the loop body is evaluated once with the per-group map behind a
+    fresh reference, giving (guard(elem), key(elem)) of the single counting path; instantiating elem with each row of the
+    array (the loop's entry value) yields the block -> name pairs. Returns {block field: name} or None when the shape is not this."""
+    from nx.ir import callee_of, op_local
+    inner = [l for l in ls if l["depth"] == 1]
+    for lp in inner:
+        body = lp["body"] if "body" in lp else fn.loops()[lp["head"]]
+        maps = set()
+        for b in body:
+            for st in fn.blocks[b]["stmts"]:
+                if st["s"] == "assign" and st.get("rv") == "ref" and st["pl"]["p"] == ["*"] and fn.locals[st["pl"]["l"]]["ty"]["s"] == MAP_TY:
+                    maps.add(st["pl"]["l"])
+        if len(maps) != 1:
+            continue
+        m = next(iter(maps))
+        if m in loops.assigned_in(fn, body):
+            continue
+        PS = len(fn.locals) + 7
+        MAPV = P("MAP")
+        its = [l for l in lp["tracked"]]
+        src = None
+        for l in its:
+            cand = iter_source(lp["entry"].get(l))
+            if isinstance(cand, tuple) and cand and cand[0] == "array":
+                src, itl = cand, l
+        if src is None:
+            continue
+        env0 = {l: v for l, v in lp["entry"].items() if l not in loops.assigned_in(fn, body)}
+        env0[m] = ("mref", PS, ())
+        env0[PS] = MAPV
+        try:
+            tree, ev = loops.iteration(prog, fn, lp["head"], set(body), list(lp["tracked"]) + [PS], env0, opaque=OPAQUE)
+        except sym.Undecided as e:
+            chk.blind("VN", FN, "table-driven counting loop undecided: %s" % e, lp["where"])
+            return {}
+        counting, idle = [], []
+        for conds, leaf in loops.paths(tree):
+            if not (isinstance(leaf, tuple) and leaf and leaf[0] == "next"):
+                continue
+            for c2, mv in loops.paths(leaf[1][-1]):          # the branches were merged at their join: the map's value is itself a case tree
+                (idle if mv == MAPV else counting).append((tuple(conds) + tuple(c2), mv))
+        if len(counting) != 1 or len(idle) != 1:
+            chk.ob("R-TABLE", FN, False, "the counting loop has %d counting and %d idle way(s) round (one each expected)" % (len(counting), len(idle)), lp["where"], key="data-type-loop")
+            return {}
+        conds, mv = counting[0]
+        okm = mv[0] == "mutated" and mv[2] == 0 and mv[3][0] == MAPV and "HashMap" in mv[1] and (mv[1].endswith("::entry") or mv[1].endswith("::insert"))
+        if not okm:
+            chk.ob("R-TABLE", FN, False, "the counting path changes the map by %s" % show(mv)[:120], lp["where"], key="data-type-loop")
+            return {}
+        key = mv[3][1]
+        nxt = [c[0][1] for c in conds if len(c) == 3 and c[0][0] == "discr" and c[0][1][0] == "call" and c[0][1][1].endswith("::next") and c[2] == ((1, 1),)]
+        guards = []
+        for c in conds:
+            if len(c) == 2 and c[1] is True and c[0][0] == "call" and c[0][1].endswith("::is_some"):
+                guards.append(c[0][2][0])
+            elif len(c) == 3 and c[0][0] == "discr" and c[2] == ((1, 1),) and not (c[0][1][0] == "call" and c[0][1][1].endswith("::next")):
+                guards.append(c[0][1])
+        # the idle path must be the negation of the same guard
+        iconds = idle[0][0]
+        neg = [c for c in iconds if (len(c) == 2 and c[1] is False and c[0][0] == "call" and c[0][1].endswith("::is_some") and c[0][2][0] in guards) or
+               (len(c) == 3 and c[0][0] == "discr" and c[0][1] in guards and not any(lo <= 1 <= hi for lo, hi in c[2]))]
+        if len(nxt) != 1 or len(guards) != 1 or len(neg) != 1:
+            chk.ob("R-TABLE", FN, False, "the counting path is not guarded by exactly one presence test of the row's block (%d guard(s))" % len(guards), lp["where"], key="data-type-loop")
+            return {}
+        elem = ("vfld", nxt[0], "Some", "0")
+        found = {}
+        for row in src[1]:
+            k_i = sym.rebuild(key, {elem: row})
+            g_i = sym.rebuild(guards[0], {elem: row})
+            name = k_i[1] if sym.is_c(k_i) and isinstance(k_i[1], str) else None
+            field = g_i[2] if g_i[0] == "fld" else None
+            if field is not None and field in found:
+                field = field + " (again)"          # two rows watch the same block: reported through the table comparison
+            if name is None or field is None:
+                chk.ob("R-TABLE", FN, False, "a table row does not pair a constant name with a message block: key %s, block %s" % (show(k_i)[:60], show(g_i)[:80]), lp["where"], key="data-type-loop")
+                return {}
+            found[field] = name
+        # the increment: entry(key).or_insert(0) += 1, or insert(key, get(key).unwrap_or(0) + 1)
+        if mv[1].endswith("::entry"):
+            slots = [tt["dest"]["l"] for b, tt in fn.calls() if b in body and "Entry" in callee_of(tt) and callee_of(tt).endswith("::or_insert") and
+                     tt["args"][1].get("k") == "const" and tt["args"][1].get("int") == 0]
+            incs = [st for b, _i, st in fn.stmts() if b in body and st["s"] == "assign" and st.get("rv") == "bin" and st["op"].startswith("Add") and
+                    st["a"].get("k") in ("copy", "move") and st["a"]["pl"]["p"] == ["*"] and st["a"]["pl"]["l"] in slots and st["b"].get("k") == "const" and st["b"].get("int") == 1]
+            stores = [st for b, _i, st in fn.stmts() if b in body and st["s"] == "assign" and st["dst"]["p"] == ["*"] and st["dst"]["l"] in slots]
+            okc = len(slots) == 1 and len(incs) == 1 and len(stores) == 1
+        else:
+            v2 = mv[3][2] if len(mv[3]) > 2 else None
+            okc = v2 is not None and v2[0] == "bin" and v2[1] == "Add" and (sym.is_c(v2[2]) and v2[2][1] == 1 or sym.is_c(v2[3]) and v2[3][1] == 1) and "::get" in repr(v2) and repr(key) in repr(v2)
+        chk.ob("VN", FN, bool(okc), "the counting path stores (previous count or 0) + 1 under the row's name", lp["where"], key="increment")
+        chk.notes["data-type counts"] = "table-driven: %d rows, one guarded counting path" % len(src[1])
+        return found
+    return None
+
+
+def data_types(chk, prog, ls=()):
     """per-group data-type counts: every counting call is guarded by `is_some()` of one message block and passes that block's own key; seven distinct
     blocks, seven distinct keys; the counting closure stores get(key).unwrap_or(0) + 1 under the same key (CFG rule over the MIR, guard = immediate dominating test)"""
     from nx.ir import callee_of, op_local
@@ -322,6 +421,10 @@ def data_types(chk, prog):
                 break
         counter = name
         found[field] = key
+    if not found:
+        tab = table_form(chk, prog, fn, ls)
+        if tab is not None:
+            found, counter = tab, None
     okk = found == DATA_TYPES
     chk.ob("R-TABLE", FN, okk, "each of the seven moment blocks, when present, is counted once under its own name" if okk else
            "block -> counted key is %s, expected %s" % (found, DATA_TYPES), w, key="data-type-table")
